@@ -264,12 +264,83 @@ def run(ctx):
                 pos.setdefault("load", (i, st))
             elif st.value.func.attr == "update":
                 pos.setdefault("update", (i, st))
+    via_cm = None
+    if set(pos) != {"new", "load", "update"}:
+        # the three layering steps may live in an alternate constructor of Config (a classmethod) that main() calls once
+        cfg_mod = ctx.prog.module("bits.config")
+        cmeths = cfg_mod.classes.get("Config", {})
+        for i, st in enumerate(body):
+            if not (isinstance(st, ast.Assign) and len(st.targets) == 1 and isinstance(st.targets[0], ast.Name) and isinstance(st.value, ast.Call)):
+                continue
+            parts_ = dotted_parts(st.value.func)
+            if not (parts_ and len(parts_) == 2 and parts_[0] == "Config" and parts_[1] in cmeths and
+                    any(ast.unparse(d) == "classmethod" for d in cmeths[parts_[1]].node.decorator_list)):
+                continue
+            cm = cmeths[parts_[1]].node
+            cls_name = cm.args.args[0].arg if cm.args.args else "cls"
+            inner, steps = None, {}
+            for j, s2 in enumerate(cm.body):
+                if isinstance(s2, ast.Assign) and len(s2.targets) == 1 and isinstance(s2.targets[0], ast.Name) and isinstance(s2.value, ast.Call) and \
+                        dotted_parts(s2.value.func) in ([cls_name], ["Config"]):
+                    star = [k for k in s2.value.keywords if k.arg is None]
+                    if len(star) == 1 and isinstance(star[0].value, ast.Name) and not s2.value.args and len(s2.value.keywords) == 1:
+                        inner, steps["new"] = s2.targets[0].id, (j, star[0].value.id)
+                if isinstance(s2, ast.Expr) and isinstance(s2.value, ast.Call) and isinstance(s2.value.func, ast.Attribute) and isinstance(s2.value.func.value, ast.Name) and \
+                        inner and s2.value.func.value.id == inner:
+                    c2 = s2.value
+                    if c2.func.attr == "load_config":
+                        a_ = [k.value for k in c2.keywords if k.arg == "config_dir"] or list(c2.args[:1])
+                        if a_ and isinstance(a_[0], ast.Name):
+                            steps.setdefault("load", (j, a_[0].id))
+                    elif c2.func.attr == "update":
+                        star = [k for k in c2.keywords if k.arg is None]
+                        if len(star) == 1 and isinstance(star[0].value, ast.Name) and not c2.args and len(c2.keywords) == 1:
+                            steps.setdefault("update", (j, star[0].value.id))
+            rets_ = [r for r in ast.walk(cm) if isinstance(r, ast.Return)]
+            if set(steps) == {"new", "load", "update"} and steps["new"][0] < steps["load"][0] < steps["update"][0] and len(rets_) == 1 and \
+                    isinstance(rets_[0].value, ast.Name) and rets_[0].value.id == inner:
+                kwv = {k.arg: k.value for k in st.value.keywords if k.arg}
+                params_ = [a.arg for a in cm.args.args[1:] + cm.args.kwonlyargs]
+                for a_, v_ in zip([a.arg for a in cm.args.args[1:]], st.value.args):
+                    kwv[a_] = v_
+
+                def _is_vars_args(e_):
+                    if ast.unparse(e_) == "vars(args)":
+                        return True
+                    if isinstance(e_, ast.Name):
+                        return any(isinstance(b_, ast.Assign) and len(b_.targets) == 1 and isinstance(b_.targets[0], ast.Name) and b_.targets[0].id == e_.id and
+                                   ast.unparse(b_.value) == "vars(args)" for b_ in body[:i])
+                    return False
+                first_ok = steps["new"][1] in kwv and _is_vars_args(kwv[steps["new"][1]])
+                dir_ok = steps["load"][1] in kwv and ast.unparse(kwv[steps["load"][1]]) == "args.config_dir"
+                cfgvar = st.targets[0].id
+                via_cm = (i, st, cm, steps)
+                R.check("C20.3", "PROV", fm, "the first layer is the parsed command line (argparse defaults included)", first_ok,
+                        "Config.%s is not given vars(args) as its lowest layer" % parts_[1], line=st.lineno)
+                R.check("C20.3", "PROV", fm, "load_config reads the directory given by --config-dir", dir_ok, "load_config is not called with args.config_dir", line=st.lineno)
+                break
+    if via_cm is not None:
+        i_cm = via_cm[0]
+        reads = []
+        for i, st in enumerate(body):
+            for n in ast.walk(st):
+                if isinstance(n, ast.Attribute) and isinstance(n.value, ast.Name) and n.value.id == cfgvar and n.attr in keys:
+                    reads.append(i)
+        first_read = min(reads) if reads else len(body)
+        multi = sum(1 for st in body for n in ast.walk(st) if isinstance(n, ast.Call) and isinstance(n.func, ast.Attribute) and isinstance(n.func.value, ast.Name)
+                    and n.func.value.id == cfgvar and n.func.attr in ("load_config", "update", "__init__"))
+        R.check("C20.3", "DOM", fm, "Config(**vars(args)) -> load_config -> update(explicit), once each (inside one alternate constructor), all before the first read",
+                i_cm < first_read and multi == 0, "configuration layering in main(): constructor call at statement %d, first read at %d, %d further layering calls" % (i_cm, first_read, multi),
+                example="an option present both in the config file and on the command line")
+        R.floor("C20.3", len(reads), 3, "config_reads_in_main")
+        pos = {"new": (i_cm, via_cm[1]), "load": (i_cm, via_cm[1]), "update": (i_cm, via_cm[1])}
     if set(pos) != {"new", "load", "update"}:
         R.error("C20.3", "main(): the configuration layering statements (Config(...), .load_config(...), .update(...)) were not found at the top level of main(): %s" % sorted(pos))
         return
     call = pos["load"][1].value
     okdir = any(k.arg == "config_dir" and ast.unparse(k.value) == "args.config_dir" for k in call.keywords) or (call.args and ast.unparse(call.args[0]) == "args.config_dir")
-    R.check("C20.3", "PROV", fm, "load_config reads the directory given by --config-dir", okdir, "load_config is not called with args.config_dir", line=call.lineno)
+    if via_cm is None:
+        R.check("C20.3", "PROV", fm, "load_config reads the directory given by --config-dir", okdir, "load_config is not called with args.config_dir", line=call.lineno)
     reads = []
     for i, st in enumerate(body):
         for n in ast.walk(st):
@@ -279,7 +350,7 @@ def run(ctx):
     multi = sum(1 for st in body for n in ast.walk(st) if isinstance(n, ast.Call) and isinstance(n.func, ast.Attribute) and isinstance(n.func.value, ast.Name)
                 and n.func.value.id == cfgvar and n.func.attr in ("load_config", "update", "__init__"))
     R.check("C20.3", "DOM", fm, "Config(**vars(args)) -> load_config -> update(explicit), once each, all before the first read",
-            pos["new"][0] < pos["load"][0] < pos["update"][0] < first_read and multi == 2,
+            via_cm is not None or (pos["new"][0] < pos["load"][0] < pos["update"][0] < first_read and multi == 2),
             "configuration layering in main(): Config at statement %d, load_config at %d, update at %d, first read of a configured value at %d, %d layering calls" % (
                 pos["new"][0], pos["load"][0], pos["update"][0], first_read, multi),
             example="an option present both in the config file and on the command line")
